@@ -97,6 +97,7 @@ inductive Op
   | drain_filter (r : String) (p : PredTok) (it : String)
   | into_iter (r : String) (it : String)
   | next (it : String) | next_back (it : String)
+  | nth (it : String) (k : Nat) | nth_back (it : String) (k : Nat) | count (it : String)
   | size_hint (it : String) | len (it : String) | as_slice (it : String)
   | clone_iter (it itnew : String)
   | serialize (r : String)
@@ -262,20 +263,14 @@ def step (w : World) : Op → World × Out
   | .spare r => w.onVecReg r (do let n ← spare X; pure (.nums [n]))
   | .split_spare r => w.onVecReg r (do let (a, b) ← split_spare X; pure (.nums [a, b]))
   | .raw_parts r => w.onVecReg r (do
-      let o ← raw_roundtrip X (do
-        let f ← Gen.from_raw_parts_pre X.env (.at 0) 0 0
-        match f with
-        | .cont _ => pure ()
-        | .ret _ => GM.throw .ub)
+      let l ← VM.lift X (Gen.len X.env)
+      let c ← VM.lift X (Gen.capacity X.env)
+      let o ← raw_roundtrip X (backParts X l c)
       match o with
       | none => pure .none
       | some (l, c) => pure (.nums [l, c]))
   | .raw_part r => w.onVecReg r (do
-      let o ← raw_roundtrip X (do
-        let f ← Gen.from_raw_part_pre X.env (.at 0)
-        match f with
-        | .cont _ => pure ()
-        | .ret _ => GM.throw .ub)
+      let o ← raw_roundtrip X (backPart X)
       match o with
       | none => pure .none
       | some _ => pure .ok)
@@ -476,6 +471,61 @@ def step (w : World) : Op → World × Out
         | .ok (o, i') => ((w'.set it (.intoIter v' i)).set itnew (.intoIter o i'), .ok)
         | .error p => (w'.set it (.intoIter v' i), .stopped p))
      | _ => (w, .badOp))
+  | .nth .. | .nth_back .. | .count .. => (w, .badOp)   -- handled by `stepAll`
+
+/-- destroy a value inside the operation (a callback) -/
+def dropIn (w : World) (e : Elem) : World × Option Panic :=
+  let (res, _, w') := runOn w {} (VM.dropElem X e)
+  (w', match res with | .ok _ => none | .error p => some p)
+
+/-- the provided `Iterator::nth` / `DoubleEndedIterator::nth_back`: `k` steps whose results are destroyed at once
+    (stopping at the first `None`), then one more step whose result is returned -/
+def nthLoop (nx : Op) : Nat → World → World × Out
+  | 0, w => step X w nx
+  | k + 1, w =>
+    match step X w nx with
+    | (w', .some e) =>
+      (match dropIn X w' e with
+       | (w'', none) => nthLoop nx k w''
+       | (w'', some p) => (w'', .stopped p))
+    | r => r
+
+/-- the provided `Iterator::count` (`fold`): the iterator is consumed; every element it yields is destroyed at once,
+    then the iterator itself is dropped — also when a step or a destructor unwinds (a second panic is the abort) -/
+def countLoop (it : String) : Nat → Nat → World → World × Out
+  | 0, _, w => (w, .stopped .fuel)
+  | fuel + 1, acc, w =>
+    let unwind (w1 : World) (p : Panic) : World × Out :=
+      if VM.unwinds p then
+        (match step X w1 (.drop it) with
+         | (w2, .stopped q) => (w2, .stopped (if VM.unwinds q then .doublePanic else q))
+         | (w2, _) => (w2, .stopped p))
+      else (w1, .stopped p)
+    match step X w (.next it) with
+    | (w', .some e) =>
+      (match dropIn X w' e with
+       | (w'', none) => countLoop it fuel (acc + 1) w''
+       | (w'', some p) => unwind w'' p)
+    | (w', .none) =>
+      (match step X w' (.drop it) with
+       | (w2, .ok) => (w2, .nums [acc])
+       | r => r)
+    | (w', .stopped p) => unwind w' p
+    | r => r
+
+/-- `step` plus the provided iterator methods, which are defined from `next` / `next_back` / `drop` -/
+def stepAll (w : World) : Op → World × Out
+  | .nth it k => if k > 64 then (w, .badOp) else nthLoop X (.next it) k w
+  | .nth_back it k =>
+    if k > 64 then (w, .badOp) else
+    (match w.get it with
+     | some (.drainFilter ..) => (w, .badOp)
+     | _ => nthLoop X (.next_back it) k w)
+  | .count it =>
+    (match step X w (.size_hint it) with
+     | (_, .hint _ (some hi)) => countLoop X it (hi + 2) 0 w
+     | _ => (w, .badOp))
+  | op => step X w op
 
 end
 end MV
